@@ -10,6 +10,7 @@ EXPLANATION = (
     "(R-C05-raw-getters) Buf::get_*/copy_to_* are called only inside the length-checked read_u8/u16/u32 wrappers, Bytes::split_to only in read_mqtt_bytes and the frame split; "
     "(R-C05-bound) the Ok edge of check() dominates every mutation of the stream, check() returns Ok only past the size-limit test, the per-packet readers get the split-off frame, never the stream; "
     "(R-C05-more-bytes) after the frame split no callee can return InsufficientBytes (error-variant sets to a fixed point over the call graph), Codec::decode maps exactly InsufficientBytes to Ok(None), Network::read loops only on it. "
+    "R-C05-more-bytes also demands that every Error::InsufficientBytes(n) built in check/parse_fixed_header/length carries `needed - buffered` or the constant 1. "
     "NOT decided: equality of the decoded packet sequence under re-chunking as a value statement.")
 
 ASSUMPTIONS = [
